@@ -375,6 +375,27 @@ package core
 //@ safe nil
 //@ nopanic
 
+// The decode step for data received from peers: each entry is decoded by this call, on this goroutine, under the
+// function's own deferred recover, with the duty type the caller gave.
+//@ pure pbv1.UnsignedDataSet.GetSet pbv1.ParSignedDataSet.GetSet
+
+//@ func UnsignedDataSetFromProto
+//@ props C14
+//@ recovers
+//@ callreq unmarshalUnsignedData: a1 == typ
+//@ ensures r1 == nil ==> ncalls(unmarshalUnsignedData) == len(set.GetSet())
+//@ loop 1 invariant ncalls(unmarshalUnsignedData) == $i
+
+//@ func ParSignedDataFromProto
+//@ props C14
+//@ recovers
+
+//@ func ParSignedDataSetFromProto
+//@ props C14
+//@ callreq ParSignedDataFromProto: a1 == typ
+//@ ensures r1 == nil ==> ncalls(ParSignedDataFromProto) == len(set.GetSet())
+//@ loop 1 invariant ncalls(ParSignedDataFromProto) == $i
+
 //@ func unmarshal
 //@ props C14
 //@ callreq json.Unmarshal: !res(1, v.(ssz.Unmarshaler)) || ncalls(unmarshaller.UnmarshalSSZ) == 1
